@@ -427,7 +427,7 @@ def run(chk):
             res = {}
             for tool, args, heap in (("ovnidump", [], True), ("ovnidump", ["-x"], True), ("ovnitop", [], True), ("ovniemu", [], True),
                                      ("ovnisort", ["-c"], True), ("ovnisort", [], False)):
-                rc, out, err, bad = L.run_judged(asan, tool, args, d, heapbuf=heap, timeout=10)
+                rc, out, err, bad = L.run_judged(L.keep_build(asan), tool, args, d, heapbuf=heap, timeout=10)
                 # one "<clock>  MCV  <relpath>  ..." record per event (M, C, V or a printed string may hold a newline)
                 res[tool + "".join(args)] = (rc, out.count("  loom.n0/proc."), bad, err[-1800:] if bad else "")
             shutil.rmtree(d, ignore_errors=True)
